@@ -289,7 +289,7 @@ structure Decoded where
   msg : Msg
   n : Nat
   views : List View
-deriving Repr
+deriving Repr, DecidableEq
 
 /-- `validClientID`: `^[[:print:]]{0,32}$` on bytes -/
 def validClientID (cid : Bytes) : Bool :=
@@ -450,55 +450,68 @@ def readField (src : Bytes) (total : Nat) : Outcome (Bytes × View × Nat) :=
   (readLPBytes buf).bind fun lp =>
   .ok (lp.1, (total + 2, lp.1.length), total + lp.2)
 
-/-- `ConnectMessage.decodeMessage(src)`; `base` = offset of `src` in the input (for the views) -/
-def decodeConnectMessage (c : ConnectF) (src : Bytes) (base : Nat) : Outcome (ConnectF × Nat × List View) :=
+/-! `ConnectMessage.decodeMessage(src)` in five consecutive sections; `base` =
+offset of `src` in the input (for the views), `total` = the Go variable. -/
+
+/-- protocol name, protocol level, connect flags, keep alive -/
+def connectFixed (c : ConnectF) (src : Bytes) : Outcome (ConnectF × Nat) :=
   (readField src 0).bind fun f =>
-  let c := { c with protoName := f.1 }
   let total := f.2.2
   (sliceFrom src total).bind fun rest =>
   if rest.length < 2 then .err else
   (index src total).bind fun ver =>
-  let c := { c with version := ver }
-  let total := total + 1
-  if versionName ver.toNat ≠ some c.protoName then .err else
-  (index src total).bind fun cf =>
-  let c := { c with connectFlags := cf }
-  let total := total + 1
+  if versionName ver.toNat ≠ some f.1 then .err else
+  (index src (total + 1)).bind fun cf =>
+  let c1 : ConnectF := { c with protoName := f.1, version := ver, connectFlags := cf }
+  let total := total + 1 + 1
   if cf.toNat % 2 ≠ 0 then .err
-  else if c.willQos > qosExactlyOnce then .err
-  else if !c.willFlag && (c.willRetain || c.willQos ≠ qosAtMostOnce) then .err
+  else if c1.willQos > qosExactlyOnce then .err
+  else if !c1.willFlag && (c1.willRetain || c1.willQos ≠ qosAtMostOnce) then .err
   else
   (sliceFrom src total).bind fun rest =>
   if rest.length < 2 then .err else
   (slice src total (total + 2)).bind fun ka =>
-  let c := { c with keepAlive := beU16 (ka.headD 0) (ka.getD 1 0) }
-  let total := total + 2
+  .ok ({ c1 with keepAlive := beU16 (ka.headD 0) (ka.getD 1 0) }, total + 2)
+
+/-- client identifier -/
+def connectClientID (c : ConnectF) (src : Bytes) (total base : Nat) : Outcome (ConnectF × View × Nat) :=
   (readField src total).bind fun f =>
-  let c := { c with clientID := f.1 }
-  let vCid : View := (base + f.2.1.1, f.2.1.2)
-  let total := f.2.2
-  if c.clientID.length = 0 && !c.cleanSession then .err
-  else if c.clientID.length > 0 && !validClientID c.clientID then .err
-  else
-  (if c.willFlag then
+  let c1 : ConnectF := { c with clientID := f.1 }
+  if c1.clientID.length = 0 && !c1.cleanSession then .err
+  else if c1.clientID.length > 0 && !validClientID c1.clientID then .err
+  else .ok (c1, (base + f.2.1.1, f.2.1.2), f.2.2)
+
+/-- will topic and will message -/
+def connectWill (c : ConnectF) (src : Bytes) (total base : Nat) : Outcome (ConnectF × View × View × Nat) :=
+  if c.willFlag then
     (readField src total).bind fun f1 =>
     (readField src f1.2.2).bind fun f2 =>
     .ok ({ c with willTopic := f1.1, willMessage := f2.1 },
          (base + f1.2.1.1, f1.2.1.2), (base + f2.2.1.1, f2.2.1.2), f2.2.2)
-   else .ok (c, ((0, 0) : View), ((0, 0) : View), total)).bind fun w =>
-  let c := w.1
-  let total := w.2.2.2
+  else .ok (c, (0, 0), (0, 0), total)
+
+/-- user name (read when the flag is set and bytes remain) -/
+def connectUser (c : ConnectF) (src : Bytes) (total base : Nat) : Outcome (ConnectF × View × Nat) :=
   (sliceFrom src total).bind fun rest =>
-  (if c.usernameFlag && rest.length > 0 then
-    (readField src total).bind fun f => .ok ({ c with username := f.1 }, ((base + f.2.1.1, f.2.1.2) : View), f.2.2)
-   else .ok (c, ((0, 0) : View), total)).bind fun u =>
-  let c := u.1
-  let total := u.2.2
+  if c.usernameFlag && rest.length > 0 then
+    (readField src total).bind fun f => .ok ({ c with username := f.1 }, (base + f.2.1.1, f.2.1.2), f.2.2)
+  else .ok (c, (0, 0), total)
+
+/-- password (read when the flag is set and bytes remain) -/
+def connectPass (c : ConnectF) (src : Bytes) (total base : Nat) : Outcome (ConnectF × View × Nat) :=
   (sliceFrom src total).bind fun rest =>
-  (if c.passwordFlag && rest.length > 0 then
-    (readField src total).bind fun f => .ok ({ c with password := f.1 }, ((base + f.2.1.1, f.2.1.2) : View), f.2.2)
-   else .ok (c, ((0, 0) : View), total)).bind fun p =>
-  .ok (p.1, p.2.2, [vCid, w.2.1, w.2.2.1, u.2.1, p.2.1])
+  if c.passwordFlag && rest.length > 0 then
+    (readField src total).bind fun f => .ok ({ c with password := f.1 }, (base + f.2.1.1, f.2.1.2), f.2.2)
+  else .ok (c, (0, 0), total)
+
+/-- `ConnectMessage.decodeMessage(src)`: fields, bytes consumed, views -/
+def decodeConnectMessage (c : ConnectF) (src : Bytes) (base : Nat) : Outcome (ConnectF × Nat × List View) :=
+  (connectFixed c src).bind fun r1 =>
+  (connectClientID r1.1 src r1.2 base).bind fun r2 =>
+  (connectWill r2.1 src r2.2.2 base).bind fun r3 =>
+  (connectUser r3.1 src r3.2.2.2 base).bind fun r4 =>
+  (connectPass r4.1 src r4.2.2 base).bind fun r5 =>
+  .ok (r5.1, r5.2.2, [r2.2.1, r3.2.1, r3.2.2.1, r4.2.1, r5.2.1])
 
 /-- `ConnectMessage.Decode` -/
 def decodeConnect (h : Hdr) (c : ConnectF) (src : Bytes) : Outcome Decoded :=
@@ -579,7 +592,7 @@ structure Encoded where
   msg : Msg
   ctr : UInt64
   out : Bytes
-deriving Repr
+deriving Repr, DecidableEq
 
 /-- the common prologue of the non-dirty path: copy `dbuf` -/
 def encodeClean (m : Msg) (ctr : UInt64) (dstLen : Nat) : Outcome Encoded :=
